@@ -15,7 +15,7 @@ for pid in sorted(reg):
         thorough_cmd=f'./check {pid} --tier thorough',
         evidence_file=f'/verif/evidence/{pid}.json',
         replay_cmd_template=f'./check {pid} --replay {{path}}',
-        engine='verus+kani' if s.get('kani') and s.get('v_units') else ('verus' if s.get('v_units') else 'kani'),
+        engine=('verus+kani' if s.get('kani') and s.get('v_units') else ('verus' if s.get('v_units') else 'kani')) + ('+native-bounded' if s.get('native') else ''),
         level_claimed=dict(category=s.get('level', 'proof'), text=s['level_text'], design_ref=s.get('design_ref', f'DESIGN.md §3 {pid}')),
         level_note=s['level_note'],
         technique=s.get('technique', 'contract-based deductive verification (Verus contracts on mechanically extracted real functions; Kani harnesses on the compiled crate)'),
@@ -33,6 +33,9 @@ m = dict(
         dict(name='K', path='/verif/kani/*',
              serves_properties=sorted(p for p in reg if reg[p].get('kani') or reg[p].get('cex')),
              kind_free_text='Kani/CBMC harnesses over the compiled real crates: complete (full symbolic domain, loop-free or width-bounded) or bounded stand-ins (labelled, not counted as proved); counterexample search for replay'),
+        dict(name='N', path='/verif/native/*',
+             serves_properties=sorted(p for p in reg if reg[p].get('native')),
+             kind_free_text='bounded stand-ins only (plain cargo programs over the real crates enumerating a stated finite input space): run for functions neither Verus nor Kani can ingest, or as fallback when a Verus unit is undecided on the current tree; labelled bounded, reported under bounded_checks_not_counted, never counted as proved'),
     ],
     checks=checks,
     notes='Exit codes of ./check: 0 held, 1 violation, 2 undecided (tool limit / lost anchor — never an alarm). Known findings: /verif/known-findings.json. See DESIGN.md.',
